@@ -29,7 +29,7 @@ THEOREMS = [
     "Mesa.Legacy.C18_legacy_step_reject_unchanged",
     "Mesa.Legacy.C18_legacy_rejected_calls_deletable",
 ]
-COUNTS = {"quick": 1600, "thorough": 20000}
+COUNTS = {"quick": 1600, "thorough": 60000}
 TRUSTED = [
     "CPython list/set/dict semantics (a cell is a list of agent ids, `_empties` a set kept as a sorted list, `agent.pos` a map)",
     "numpy boolean array indexing of `_empty_mask` (modelled as a function cell -> Bool)",
